@@ -114,6 +114,12 @@ def clone(v):
     return v
 
 
+class _ExprRaise(Exception):
+    def __init__(self, exc):
+        Exception.__init__(self, exc)
+        self.exc = exc
+
+
 class _Break(Exception):
     pass
 
@@ -337,7 +343,12 @@ class Evaluator:
     def block(self, stmts, fr):
         """Execute statements; True if every flow through the block has exited."""
         for st in stmts:
-            if self.stmt(st, fr):
+            try:
+                if self.stmt(st, fr):
+                    return True
+            except _ExprRaise as ex:
+                # an expression of this statement definitely raises (e.g. int("a"), a failed constant lookup)
+                self.add_exit(fr, "raise", None, st, exc=ex.exc)
                 return True
         return False
 
@@ -871,6 +882,8 @@ class Evaluator:
         if m is None:
             raise AnalysisError("expression kind not modelled: %s at %s:%d" % (type(e).__name__, fr.modname, e.lineno))
         r = m(e, fr)
+        if isinstance(r, T) and r.op == "raise" and r.args and isinstance(r.args[0], str) and r.args[0] in ("ValueError",) and fr.fi is not None and fr.loopdepth == 0:
+            raise _ExprRaise(r.args[0])
         if self.bind and isinstance(r, T):
             if r in self.bind:
                 return self.bind[r]
